@@ -60,12 +60,18 @@ def gen(rng, idx, tier, seed):
             # in the sixth/seventh significant digit
             'nearcode': bool(rng.random() < 0.25),
         })
+        if rng.random() < 0.2:
+            # units with parentheses
+            vars_[-1]['units'] = str(rng.choice(['W/(m2 sr)', 'ug/m3 (STP)',
+                                                 'mol/(m2 s)']))
     ncom = int(rng.integers(0, 9))
     return {'nrec': nrec, 'vars': vars_, 'seed': int(rng.integers(1 << 30)),
             'tpos': int(rng.integers(0, nvar + 1)) if rng.random() < 0.4
             else 0,
             'comments': [str(x) for x in rng.permutation(COMMENTS)[:ncom]],
-            'time_interval': int(rng.choice([1, 10, 60]))}
+            'time_interval': int(rng.choice([1, 10, 60])),
+            # the independent variable stored as integer seconds
+            'time_dtype': str(rng.choice(['d', 'd', 'i']))}
 
 
 def build(spec):
@@ -75,7 +81,8 @@ def build(spec):
     n = spec['nrec']
     f.createDimension('POINTS', n)
     def add_time():
-        t = f.createVariable('Start_UTC', 'd', ('POINTS',))
+        t = f.createVariable('Start_UTC', spec.get('time_dtype', 'd'),
+                             ('POINTS',))
         t.units = 'seconds'
         t.standard_name = 'Start_UTC'
         t[:] = 36000.0 + spec['time_interval'] * np.arange(n)
